@@ -53,6 +53,7 @@ def check(repo: Repo, rep: Report) -> None:
         f = repo.fn(rel, d)
         sig = signature(m, f)
         TC.rule_fanout_loops(rep, "F1-terminal-fan-out", f)
+        TC.rule_no_mutation_while_iterating(rep, "F1-terminal-fan-out", f)
         for sub, sl in sig.items():
             if sub != "source#0" or "on_error" not in sl:
                 continue   # the defining source only (group_join's right source has no completion slot by design)
